@@ -25,6 +25,7 @@ func init() {
 		Families: []Family{
 			witnessFamily("C13"),
 			{Name: "abs", N: tierN(10000, 400000), Run: c13Abs},
+			{Name: "big", N: bigN("C13"), Run: bigRun("C13")},
 			{Name: "compose", N: tierN(10000, 400000), Run: c13Compose},
 			{Name: "wrap", N: tierN(80000, 4000000), Run: c13Wrap},
 		},
